@@ -79,7 +79,7 @@ func (this *NodesManager) ListNodes() map[uint64]string {
 }
 
 func (this *NodesManager) AddNode(id uint64, address string) (map[uint64]string, error) {
-	if err := this.zeroGroup.ProposeJoin(id, address); err != nil {
+	if err := this.zeroGroup.ProposeJoinAndWait(id, address); err != nil {
 		return nil, err
 	}
 
@@ -89,7 +89,7 @@ func (this *NodesManager) AddNode(id uint64, address string) (map[uint64]string,
 }
 
 func (this *NodesManager) RemoveNode(id uint64) error {
-	return this.zeroGroup.ProposeLeave(id)
+	return this.zeroGroup.ProposeLeaveAndWait(id)
 }
 
 func (this *NodesManager) tryJoin(ctx context.Context, address string) error {
